@@ -9,12 +9,30 @@ COMMON_TB = [
 
 PROPS = {
     "C12": {
-        "proof_modules": [],
-        "theorems": [],
+        "proof_modules": ["GrolProofs.Props.C12"],
+        "theorems": ["Grol.Obj.C12.no_panic", "Grol.Obj.C12.refl", "Grol.Obj.C12.antisymm", "Grol.Obj.C12.total", "Grol.Obj.C12.trans",
+                     "Grol.Obj.C12.lt_trans", "Grol.Obj.C12.operators", "Grol.Obj.C12.equals_cmp", "Grol.Obj.C12.equals_symm",
+                     "Grol.Obj.C12.equals_trans", "Grol.Obj.C12.cmp_congr", "Grol.Obj.C12.min_max",
+                     "Grol.Obj.C12.legacy_int_float_not_transitive", "Grol.Obj.cmpI_PW", "Grol.Obj.cmp_eq", "Grol.Obj.cmpIntFloat_eq"],
         "suites": ["cmp"],
-        "rule": "tbd",
-        "trusted_base": COMMON_TB,
-        "assumptions": [],
+        "rule": "cmp suite: a curated universe of ~150 values (ints around +-2^53, 2^63-2^10.., min/max int64; floats -0, +0, three NaN patterns, "
+                "+-Inf, 2^53, 2^53+2, +-2^63, subnormals, 0.1, x.5 near 2^52; nil, booleans, strings incl. empty/NUL/non-UTF8, errors, "
+                "functions, extensions, quotes, registers, RETURN/MACRO objects (panic branches), empty/equal-length/nested/large arrays and maps) "
+                "plus 40 (quick) / 150 (thorough) seeded random nested values. V lines: the value evaluated from its grol source renders "
+                "like the value built through the object API. P lines: every unordered pair of the universe (and sampled pairs with "
+                "random values): object.Cmp both ways and on itself, object.Equals both ways and against an independently built copy, "
+                "and `< <= > >= == !=` both ways plus min/max evaluated from grol source. T lines: triples (quick: a quarter of all "
+                "numeric triples + 60k random triples; thorough: all ~3.4M triples of the universe + 300k random) with Cmp/Equals on "
+                "(a,b),(b,c),(a,c). The driver recomputes everything with the model and evaluates the order axioms on the "
+                "implementation's results. non-trivial = all operands are data values (no RETURN/MACRO object).",
+        "trusted_base": COMMON_TB + ["modelled: object/object.go Cmp, cmpIntFloat, Equals, TypeEqual, IsIntType, areIntFloat, Value (registers), "
+                                     "Go's cmp.Compare on int64/string/float64, math.Trunc and int64(float64) on the exact value of a binary64; "
+                                     "eval/eval.go evalInfixExpression (== != < <= > >=); extensions min/max incl. applyExtension's expansion of a last array argument",
+                                     "not modelled: Reference objects (Eval dereferences them before operators and containers see them) and "
+                                     "Value()'s 'Too many references'/'Self reference' panics; the evaluator that builds values from source "
+                                     "(V lines compare its result with the API-built value)"],
+        "assumptions": ["IEEE-754 binary64 semantics of Go's float64 comparison, math.Trunc and int64() conversion (the model computes them exactly from the bit pattern)"],
+        "exhaustive_note": "all pairs of the curated universe; thorough tier: all triples",
     },
     "C20": {
         "proof_modules": ["GrolProofs.Props.C20"],
